@@ -136,8 +136,8 @@ def replace_ref(text, oldvalue, newvalue="n/a"):
     Returns:
         str: The modified string with the ref replaced or removed.
     """
-    # If it's not n/a, we can just replace directly.
-    if newvalue != "n/a":
+    # If it's not n/a (or empty, e.g. a category key with no entry), we can just replace directly.
+    if newvalue != "n/a" and newvalue != "":
         return text.replace(oldvalue, newvalue)
 
     def _remover(match):
